@@ -15,7 +15,7 @@ static struct vp_mu_ghost any_ghost (void) {
 	g.hold = (int) (vp_nondet_u32 () % 3); g.spin = vp_nondet_bool (); g.waited = vp_nondet_bool ();
 	g.queued = vp_nondet_bool (); g.l1_check = vp_nondet_bool (); g.dead = 0; g.release_ctx = vp_nondet_bool ();
 	g.set_desig = vp_nondet_bool (); g.v_calls = vp_nondet_u32 (); g.p_calls = vp_nondet_u32 (); g.cond_evals = vp_nondet_u32 ();
-	g.longw_set = vp_nondet_bool (); g.enq_long = vp_nondet_bool (); g.enq_count = vp_nondet_u32 (); g.observer = vp_nondet_bool (); g.no_wakeup_ctx = vp_nondet_bool (); g.last_cond = vp_nondet_bool (); g.last_sem_outcome = 0;
+	g.longw_set = vp_nondet_bool (); g.enq_long = vp_nondet_bool (); g.enq_count = vp_nondet_u32 (); g.observer = vp_nondet_bool (); g.h4_check = 0; g.released_with_desig = vp_nondet_bool (); g.no_wakeup_ctx = vp_nondet_bool (); g.last_cond = vp_nondet_bool (); g.last_sem_outcome = 0;
 	g.last_new = vp_nondet_u32 ();
 	return g;
 }
